@@ -69,7 +69,7 @@ Definition run_case (x : case) : bool :=
 Definition check_scan (c : params) (prior : option pmeta) (keys : list key) (nfs : nfset) (b : cblock)
     (o : outcome scanned serr) : bool :=
   match o with
-  | Ok r => acceptable c prior b && scanned_eqb r (expected dec_truth nf_truth c prior keys nfs b)
+  | Ok r => acceptable c prior b && scanned_eqb r (expected (dec_truth c (b_height b)) nf_truth c prior keys nfs b)
   | Err _ => negb (acceptable c prior b)
   | Panic => false
   end.
